@@ -8,6 +8,7 @@ import (
 	"sort"
 	"strings"
 
+	"github.com/aml-org/amf-custom-validator/pkg"
 	"github.com/open-policy-agent/opa/rego"
 	"github.com/piprate/json-gold/ld"
 )
@@ -636,6 +637,22 @@ func c05Gen(tier string, emit func(c05Case)) {
 func c05Verdict(c *Ctx, text string) (string, CallRes) {
 	r := ValidateCompiled(c05Query, text)
 	c.Eval(1)
+	// the debug flag of the entry point must not change anything
+	rd := protect(func() (string, error) {
+		return pkg.ValidateCompiledWithConfiguration(c05Query, text, true, nil, Epoch2000, DefaultReportConf())
+	})
+	c.Eval(1)
+	if rd.Report != r.Report || (rd.Err == nil) != (r.Err == nil) || (rd.Panic == nil) != (r.Panic == nil) {
+		if rd.Panic != nil {
+			return "", rd
+		}
+		if rd.Err != nil {
+			return "", rd
+		}
+		if rep, err := ParseReport(rd.Report); err == nil {
+			return "debug=true: " + rep.Verdict(), rd
+		}
+	}
 	if r.Err != nil || r.Panic != nil {
 		return "", r
 	}
